@@ -7,7 +7,7 @@ use super::{
 };
 use crate::{
     error::{WriterError, WriterResult},
-    model::{Namespace, field::resolve_type, node::RustNode},
+    model::{Namespace, field::resolve_type, node::RustNode, structures::RustType},
     reader::{WELL_KNOWN_NAMESPACES, WriteXml},
 };
 use roxmltree::{Document, Node};
@@ -174,14 +174,19 @@ impl RustDocument {
         }
     }
 
+    /// `kind` narrows the search to type definitions or to global elements: XML Schema keeps them in
+    /// separate symbol spaces, so one namespace may use the same name for both
     pub fn find_node_by_xml_name<'n>(
         &mut self,
         start_node: &Node<'n, 'n>,
         xml_name: &str,
         namespace: Option<&Namespace>,
+        kind: Option<ComponentKind>,
     ) -> Option<Rc<RustNode>> {
         let rust_node = self.nodes.iter().find(|node| {
-            node.rust_type.xml_name().is_some_and(|n| n == xml_name) && node.in_namespace.as_deref() == namespace
+            node.rust_type.xml_name().is_some_and(|n| n == xml_name)
+                && node.in_namespace.as_deref() == namespace
+                && kind.is_none_or(|k| k.matches_rust_type(&node.rust_type))
         });
 
         if let Some(rust_node) = rust_node {
@@ -194,7 +199,7 @@ impl RustDocument {
         }
 
         self.resolving.push(xml_name.to_string());
-        let alt_node = try_to_find_node_by_xml_name_in_xml_doc(start_node, xml_name, namespace, self);
+        let alt_node = try_to_find_node_by_xml_name_in_xml_doc(start_node, xml_name, namespace, kind, self);
         self.resolving.pop();
         Some(alt_node.ok()?.into())
     }
@@ -209,6 +214,31 @@ impl RustDocument {
 
     pub fn find_binding_by_xml_name(&self, xml_name: &str, _namespace: Option<&Namespace>) -> Option<&Rc<SoapBinding>> {
         self.soap_bindings.iter().find(|port| port.name == xml_name)
+    }
+}
+
+/// The symbol space a reference points into
+#[derive(Debug, Clone, Copy, PartialEq, Eq)]
+pub enum ComponentKind {
+    /// `type=` and `base=` refer to a complex or simple type definition
+    Type,
+    /// `ref=` on an element and `element=` on a message part refer to a global element
+    Element,
+}
+
+impl ComponentKind {
+    fn matches_rust_type(self, rust_type: &RustType) -> bool {
+        match self {
+            ComponentKind::Type => matches!(rust_type, RustType::Complex(_) | RustType::Simple(_)),
+            ComponentKind::Element => matches!(rust_type, RustType::Element(_)),
+        }
+    }
+
+    fn matches_tag(self, tag_name: &str) -> bool {
+        match self {
+            ComponentKind::Type => matches!(tag_name, "complexType" | "simpleType" | "group"),
+            ComponentKind::Element => tag_name == "element",
+        }
     }
 }
 
@@ -228,6 +258,7 @@ fn try_to_find_node_by_xml_name_in_xml_doc<'n>(
     start_node: &'n Node<'n, 'n>,
     xml_name: &str,
     _namespace: Option<&Namespace>,
+    kind: Option<ComponentKind>,
     doc: &mut RustDocument,
 ) -> WriterResult<RustNode> {
     // get to the root of the document from the start node
@@ -241,7 +272,8 @@ fn try_to_find_node_by_xml_name_in_xml_doc<'n>(
         // only global components (the children of a schema) can be the target of a reference;
         // a local element or attribute that happens to carry the same name is not
         let is_global = node.parent().is_some_and(|p| p.tag_name().name() == "schema");
-        if node.is_element() && is_global {
+        let is_wanted_kind = kind.is_none_or(|k| k.matches_tag(node.tag_name().name()));
+        if node.is_element() && is_global && is_wanted_kind {
             // do a quick check on the name of the node, so we can skip the more expensive try_from_node
             if let Some(node_name) = node.attribute("name") {
                 let (node_name, _node_namespace) = resolve_type(node_name, doc);
